@@ -706,6 +706,28 @@ fn extract_files(
     extract_files_with_options(options)
 }
 
+/// Join an archive entry's system path onto the output directory, refusing anything that
+/// could leave it: parent-directory components, absolute paths and drive prefixes.
+fn contained_output_path(output_dir: &str, system_path: &str) -> Option<std::path::PathBuf> {
+    use std::path::Component;
+
+    let mut output_path = std::path::PathBuf::from(output_dir);
+    let mut has_name = false;
+
+    for component in Path::new(system_path).components() {
+        match component {
+            Component::Normal(part) => {
+                output_path.push(part);
+                has_name = true;
+            }
+            Component::CurDir => {}
+            Component::ParentDir | Component::RootDir | Component::Prefix(_) => return None,
+        }
+    }
+
+    has_name.then_some(output_path)
+}
+
 fn extract_files_with_options(options: ExtractOptions) -> Result<()> {
     let ExtractOptions {
         archive_path,
@@ -824,7 +846,17 @@ fn extract_files_with_options(options: ExtractOptions) -> Result<()> {
                 Ok(data) => {
                     let output_path = if preserve_paths {
                         let system_path = mpq_path_to_system(&file);
-                        Path::new(&output_dir).join(system_path)
+                        match contained_output_path(&output_dir, &system_path) {
+                            Some(path) => path,
+                            None => {
+                                log::warn!(
+                                    "Refusing to extract {file}: path would leave the output directory"
+                                );
+                                error_count += 1;
+                                pb.inc(1);
+                                continue;
+                            }
+                        }
                     } else {
                         let system_path = mpq_path_to_system(&file);
                         let filename = Path::new(&system_path).file_name().unwrap_or_default();
@@ -903,7 +935,17 @@ fn extract_files_with_options(options: ExtractOptions) -> Result<()> {
                     let output_path = if preserve_paths {
                         // Convert MPQ path separators to system path separators
                         let system_path = mpq_path_to_system(file);
-                        Path::new(&output_dir).join(system_path)
+                        match contained_output_path(&output_dir, &system_path) {
+                            Some(path) => path,
+                            None => {
+                                log::warn!(
+                                    "Refusing to extract {file}: path would leave the output directory"
+                                );
+                                error_count += 1;
+                                pb.inc(1);
+                                continue;
+                            }
+                        }
                     } else {
                         // Convert MPQ path to system path, then extract just the filename
                         let system_path = mpq_path_to_system(file);
